@@ -21,7 +21,8 @@ DIGITS = frozenset("0123456789")
 
 # ----------------------------------------------------------------- utilities
 def hashable(v: Any) -> bool:
-    return is_concrete(v) or isinstance(v, (EnumV, Text, CharSet, SeqStr))
+    # virtual paths are values identified by their text (see _equal): usable as dict keys / set members
+    return is_concrete(v) or isinstance(v, (EnumV, Text, CharSet, SeqStr)) or (isinstance(v, Opaque) and v.cls == "vpath")
 
 
 def dedupe(items: list) -> list:
